@@ -7,7 +7,10 @@ props = [json.loads(l)["id"] for l in open(os.path.join(ROOT, "properties.jsonl"
 TECH = "machine-checked proof in Rocq/Coq 8.16 over a hand-written Gallina model + executed model/implementation correspondence (extracted OCaml vs Rust harness) + oracle search on the implementation"
 NOTE = ("Trusted: Coq kernel (+VM for witness lemmas), no axioms (Print Assumptions: closed), the reference semantics Sem.mem and the "
         "statements in Properties/, extraction (ExtrOcamlBasic only), harness/driver/python comparison, hooks. The model is hand-written: "
-        "it is tied to /repo only by the correspondence cases each run executes (counts in evidence). ")
+        "it is tied to /repo only by the correspondence cases each run executes (counts and input distribution in evidence): exhaustive "
+        "small scope, seeded random, and a scale / rare-feature stream (wide, deep, long, odd and related inputs; DESIGN 10.13-10.16); the "
+        "reach of that tie was measured (every line of merger, subset, entry points, visitor and generator is executed; DESIGN 10.15) and "
+        "probed with 111 independently written breaking changes (all reported) and 10 behaviour-preserving refactorings (none reported). ")
 
 CLAIMS = {
  "C04": ('C04_main is a THEOREM about the model of the code as it is now (fixes F2, F3, F11 applied): for every string of Unicode scalar values, accepts cfg_now s = true <-> exists t, json_text s t /\\ jdepth t <= 256 /\\ dup_consistent t = true, where json_text is RFC 8259 written as inductive relations. Proved through lexer / parser / walk completeness (every grammatical text of depth <= 256 is converted to exactly infer_text of its tree, from_str_complete) and soundness (a silent lexer + silent recovering parser + successful walk imply a derivation), ref_json exact (grammar unambiguous), dup_consistent <-> inference succeeds, is_superset / is_superset_checked / from_sources corollaries (non-JSON rejected, too deep rejected). The pre-fix behaviour stays as regression witnesses. Correspondence ties model to /repo: tokens, CST node by node, from_str, from_sources, is_superset* on a systematic malformed stream (~30k texts); oracle: acceptance = reference, cross-checked with serde_json; is_superset probed against the shape of the recovered tree.', "6/C04"),
